@@ -18,7 +18,8 @@ META = {
              "distinct values and >=1 cell different from the stored common; distinct by content hash of the case"),
     "require": {"quick": ["class:rowscan_shape", "class:mapping=many_to_one", "class:common=absent",
                           "class:alphabet=neg", "class:alphabet=b63", "class:counts=given", "class:back=mapping",
-                          "class:n=0", "class:ndim=2", "class:layout=F", "class:layout=strided", "class:layout=list"],
+                          "class:n=0", "class:ndim=2", "class:layout=F", "class:layout=strided", "class:layout=list",
+                          "class:options_reused", "class:alphabet=sbound"],
                 "thorough": ["class:rowscan_shape", "class:mapping=many_to_one", "class:common=absent",
                              "class:alphabet=neg", "class:alphabet=b63", "class:counts=given", "class:back=mapping",
                              "class:n=0", "class:ndim=2", "class:n>=20000"]},
@@ -236,6 +237,17 @@ def judge(ctx, case):
     for lab in pr.labels():
         ctx.count(lab)
     ctx.inflight(None)
+    if ctx.evals % 3 == 0 and a.size:
+        # the caller may go on using the same counts / mapping objects: a second construction from the
+        # very same objects (here with the common value left to the library) must round-trip as well
+        kw2 = {k: v for k, v in kw.items() if k != "common"}
+        idx2 = iindex.from_array(a.copy(), **kw2)
+        ctx.count("class:options_reused")
+        e2 = a.astype(object) if mapping is None else vmap(mapping, a)
+        if not numpy.array_equal(idx2.to_array(dtype=object if e2.dtype == object and max(abs(int(x)) for x in e2.ravel().tolist()) >= 2 ** 63 else numpy.int64).astype(object), e2):
+            ctx.violation("mismatch-on-reused-options:ndim=%d,map=%s,counts=%s" % (a.ndim, case.get("mapping_class"), case["counts"]),
+                          "a second from_array with the same counts/mapping objects does not round-trip (first call changed them?)", case)
+            return
 
     e = a.astype(object) if mapping is None else vmap(mapping, a)
     stored_common = idx.common
